@@ -148,10 +148,12 @@ func execStop(input string) Result {
 	// to rest within the budget (outlinks, rate limiter, loaded machine): the stop is then requested when the budget ends
 	// and judged like any other - giving such a run up WITHOUT a stop made monitor 0 fire on unchanged code (thorough tier)
 	sp.StopAtDeadline = true
-	if v, err := strconv.Atoi(os.Getenv("ZV_STOP_BUDGET_MS")); err == nil && v > 0 { // debugging aid: make the budget end early
-		sp.TimeoutMs = v
+	for _, f := range strings.Fields(input) { // budget=<ms>: the run's budget (stored inputs that exercise the stop at the end of the budget without sitting out 90 s)
+		if v, err := strconv.Atoi(strings.TrimPrefix(f, "budget=")); err == nil && strings.HasPrefix(f, "budget=") && v > 0 {
+			sp.TimeoutMs = v
+		}
 	}
-	res, evs, status := runChild(sp, time.Duration(sp.TimeoutMs+sp.TimeoutMs/2+20000)*time.Millisecond)
+	res, evs, status := runChild(sp, time.Duration(sp.TimeoutMs+max(sp.TimeoutMs/2, 45000)+20000)*time.Millisecond)
 	busy, _ := abstractStopState(evs)
 	sc := scanWarcDir(filepath.Join(sp.Dir, "jobs"))
 	crashed := res == nil || (status != "" && !strings.HasPrefix(status, "watchdog"))
